@@ -17,6 +17,7 @@ RERUN = "OrqModel.Properties.Rerun"
 PARAMS = "OrqModel.Properties.Params"
 COMPLETE = "OrqModel.Properties.ComposeComplete"
 RETRY = "OrqModel.Properties.Retry"
+QUERY = "OrqModel.Properties.Query"
 
 TRUSTED = [
     "Lean 4.33 kernel (thorough tier: re-checked by leanchecker)",
@@ -110,7 +111,7 @@ PROPS = {
         title="expression errors contained",
         theorems={ERRORS: ["C11_next_never_raises_expr", "C11_update_never_raises_expr", "C11_render_never_raises_expr", "C11_request_never_raises_expr"], STATUS: ["tbl_failed_request_total"], SITES: ["evalSites_guarded", "evalSites_nonempty"]},
         keys=["status", "errors", "staged"], offers="ids",
-        prof=dict(p_badexpr=0.8), hist=dict(p_pause=0.05, p_cancel=0.05), monitor="C11",
+        prof=dict(p_badexpr=0.8), hist=dict(p_pause=0.05, p_cancel=0.1, p_task_pause=0.15, p_first_pending=0.1), monitor="C11",
         unproven=["'recorded and failed' postcondition proved only as: an error entry is logged before the failed request (C11_*), not as a full postcondition"],
     ),
     "C12": dict(
@@ -123,9 +124,9 @@ PROPS = {
     "C13": dict(
         title="retry: bounded attempts, no transition from a retried attempt",
         theorems={ITEMS: ["C13_retry_iff", "C13_retry_requires_tally_below_count", "C13_completed_rows", "C13_retry_event_reopens"],
-                  RETRY: ["C13_tally_bounded", "C13_update_keeps_bound", "C13_retrying_only_by_retry_event", "C13_retry_event_licensed"]},
+                  RETRY: ["C13_tally_bounded", "C13_update_keeps_bound", "C13_retrying_only_by_retry_event", "C13_retry_event_licensed", "C13_no_retry_without_status_change"]},
         keys=["status", "staged", "sequence", "contexts"], offers="full",
-        prof=dict(p_retry=0.8, max_tasks=4, p_template=0.3, templates=[10, 10, 10, 3, 3]), hist=dict(p_fail=0.5, p_pause=0.05), monitor="C13",
+        prof=dict(p_retry=0.8, max_tasks=4, p_template=0.3, templates=[10, 10, 10, 3, 3]), hist=dict(p_fail=0.5, p_pause=0.05, p_dup_report=0.2), monitor="C13",
         unproven=["the bound is proved on the tally (C13_tally_bounded: every history, every evaluator); that each re-offer corresponds to one bump of the tally, the delay of re-offers and the absence of transitions from a retried attempt are monitored, not proved"],
     ),
     "C14": dict(
@@ -155,7 +156,7 @@ PROPS = {
     ),
     "C18": dict(
         title="history is append-only; finished records never change",
-        theorems={HISTORY: ["C18_extends_request", "C18_extends_next", "C18_extends_report", "C18_extends_render", "C18_extends_rerun", "C18_history_extends", "C18_record_core_fixed", "C18_context_fixed"], ITEMS: ["C13_completed_rows"], RETRY: ["C13_retrying_only_by_retry_event"], STATUS: ["C03_fresh_start_statuses"]},
+        theorems={HISTORY: ["C18_extends_request", "C18_extends_next", "C18_extends_report", "C18_extends_render", "C18_extends_rerun", "C18_history_extends", "C18_record_core_fixed", "C18_context_fixed"], ITEMS: ["C13_completed_rows"], RETRY: ["C13_retrying_only_by_retry_event", "C13_no_retry_without_status_change"], STATUS: ["C03_fresh_start_statuses"]},
         keys=["contexts", "routes", "sequence"], offers=None,
         prof=dict(p_items=0.25, p_join=0.7, p_loop=0.3, p_template=0.3, templates=[8, 8, 2, 0, 3]),
         hist=dict(p_fail=0.3, p_persist=0.15, p_rerun=0.3, p_dup_report=0.3, p_lazy_start=0.25),
@@ -163,9 +164,10 @@ PROPS = {
     ),
     "C19": dict(
         title="conducting deterministic; next is a pure query",
-        theorems={NEXT: ["C19_next_no_status_change_when_not_running", "C01_no_offer_unless_running_or_remediation", "C08_offers_sorted"], SITES: ["setSites_covered"], JOIN: ["C19_inbound_status_perm"]},
-        keys=None, offers="full", prof=dict(), hist=dict(p_next2=0.5, p_pause=0.05, p_fail=0.3), monitor="C19",
-        unproven=["C19_next_idempotent not proved; hash-seed independence is outside any model, multi-seed replay only"],
+        theorems={NEXT: ["C19_next_no_status_change_when_not_running", "C01_no_offer_unless_running_or_remediation", "C08_offers_sorted"], SITES: ["setSites_covered"], JOIN: ["C19_inbound_status_perm"],
+                  QUERY: ["C19_next_idempotent", "C19_next_is_query", "C19_render_is_query", "C19_fragment_evaluator_items_blind", "C19_next_idempotent_fragment"]},
+        keys=None, offers="full", prof=dict(p_items=0.35), hist=dict(p_next2=0.5, p_pause=0.05, p_fail=0.3), monitor="C19",
+        unproven=["repeatability of next is proved for calls that return tasks and evaluators that cannot see the staging area (C19_next_idempotent); hash-seed independence is outside any model, multi-seed replay only"],
     ),
     "C20": dict(
         title="every shorthand means its long form",
